@@ -108,7 +108,7 @@ def run(ctx):
     for fam in sorted(byfam):
         fs = sorted(byfam[fam])
         ctx.rng.shuffle(fs)
-        fpick += fs[:(12 if th else 2)]
+        fpick += fs[:(40 if th else 2)]
     fpick = sorted(set(fpick) | set(pick))
     jobs, obs = [], []
     # numeric fields of every picked sample, from fq's own decode: targets for field saturation
